@@ -117,6 +117,71 @@ def gen_reconnect(seed, opts=None):
     return plan
 
 
+def gen_reconnect_connfail(seed, opts=None):
+    """A dial that fails: the transport the provider hands out raises from connect() - at the very first connect or after a
+    connection ended - and the application asks for a reconnect (from on_connection_error or a little later)."""
+    rng = random.Random(seed ^ 0xC0FA)
+    P = _pick(rng, [(2, 100), (2, 500)])
+    L = P * rng.randint(3, 6)
+    plan = {'exec': 'reconnect', 'profile': (opts or {}).get('name', 'reconnect-connfail'), 'seed': seed,
+            'loop': {'eps': _pick(rng, [(3, 0.0), (1, 1e-6)])},
+            'client': {'keepalive_ms': P, 'lifetime_ms': L, 'fragment': _pick(rng, [(3, None), (1, 64)])},
+            'link': {'c2s': {'latency': 0.001}, 's2c': {'latency': 0.001}}, 'nontrivial': True, 'P_ms': P, 'L_ms': L}
+    if rng.random() < 0.5:
+        plan['connect_delay'] = _pick(rng, [(1, ['hops', rng.randint(1, 5)]), (1, ['time', _pick(rng, [(2, 0.001), (1, 0.02)])])])
+    events, ias, fails = [], [], []
+    iid = 0
+    t = 0.05
+    c = 0
+    first_fails = rng.random() < 0.4
+    rounds = rng.randint(1, 2)
+    for r in range(rounds + 1):
+        failing = (r == 0 and first_fails) or (r > 0 and rng.random() < 0.7)
+        if failing:
+            fails.append(c)
+            via = _pick(rng, [(3, 'on_connection_error'), (1, 'script')])
+            ev = {'conn': c, 'cause': 'connect_failed', 'at': round(t, 4), 'via': via, 'hops': 0}
+            if via == 'script':
+                ev['reconnect_at'] = round(t + 0.1, 4)
+            events.append(ev)
+            # a request issued while the dial is failing / has failed
+            if rng.random() < 0.5:
+                ias.append({'id': iid, 'kind': 'rr', 'by': 'client', 'at': round(t + rng.uniform(0, 0.05), 4), 'conn': c,
+                            'req': {'dlen': 16, 'mlen': None}, 'resp': {'mode': 'now', 'dlen': 20, 'mlen': None}})
+                iid += 1
+            t += 0.3
+            c += 1
+        if r == rounds:
+            break
+        # a working connection with a little traffic, then it ends
+        for _ in range(rng.randint(0, 2)):
+            ias.append({'id': iid, 'kind': 'rr', 'by': 'client', 'at': round(t + rng.uniform(0, 0.02), 4), 'conn': c,
+                        'req': {'dlen': rng.randint(8, 80), 'mlen': None},
+                        'resp': {'mode': _pick(rng, [(1, 'never'), (2, 'now')]), 'dlen': 20, 'mlen': None}})
+            iid += 1
+        ias.append({'id': iid, 'kind': 'rr', 'by': 'client', 'at': round(t + 0.03, 4), 'conn': c, 'probe': True,
+                    'req': {'dlen': 16, 'mlen': None}, 'resp': {'mode': 'now', 'dlen': 24, 'mlen': None}})
+        iid += 1
+        cause = _pick(rng, [(2, 'server_eof'), (1, 'reset'), (2, 'explicit')])
+        via = 'script' if cause == 'explicit' else _pick(rng, [(1, 'on_close'), (1, 'script')])
+        t_end = round(t + 0.08, 4)
+        ev = {'conn': c, 'cause': cause, 'at': t_end, 'via': via, 'hops': rng.randint(0, 3)}
+        t = t_end + 0.3
+        if via == 'script':
+            ev['reconnect_at'] = round(t, 4)
+            t += 0.2
+        events.append(ev)
+        c += 1
+    # the connection everything ends up on
+    ias.append({'id': iid, 'kind': 'rr', 'by': 'client', 'at': round(t + 0.05, 4), 'conn': c, 'probe': True,
+                'req': {'dlen': 16, 'mlen': None}, 'resp': {'mode': 'now', 'dlen': 24, 'mlen': None}})
+    plan['events'] = events
+    plan['interactions'] = ias
+    plan['connect_fail'] = fails
+    plan['horizon'] = t + 1.0
+    return plan
+
+
 def gen_reconnect_lease(seed, opts=None):
     return gen_reconnect(seed, dict(opts or {}, lease=True))
 
@@ -183,7 +248,34 @@ def _run(world, plan):
             servers.append(server)
             ct = world.make_tcp_transport('client#%d' % k, link.client_reader, link.client_writer)
             cd = plan.get('connect_delay')
-            if cd:
+            if k in plan.get('connect_fail', ()):
+                # the dial fails: connect() raises (after its suspension, if any); like a lazily dialled transport it never
+                # becomes ready, so nothing can be sent or received on it
+                never = asyncio.Event()
+
+                async def failing_connect(k=k):
+                    world.rec('tr', ep='client#%d' % k, what='connect_suspended')
+                    if cd:
+                        if cd[0] == 'hops':
+                            for _ in range(cd[1]):
+                                await asyncio.sleep(0)
+                        else:
+                            await asyncio.sleep(cd[1])
+                    world.rec('fault', what='connect_failed', conn=k)
+                    world.fault_fired('connect_failed')
+                    raise ConnectionRefusedError(111, 'Connect call failed')
+
+                def never_gate(fn, never=never):
+                    async def gated(*a):
+                        await never.wait()
+                        return await fn(*a)
+
+                    return gated
+
+                ct.send_frame = never_gate(ct.send_frame)
+                ct.next_frame_generator = never_gate(ct.next_frame_generator)
+                ct.connect = failing_connect
+            elif cd:
                 orig_connect = ct.connect
                 ready = asyncio.Event()
 
@@ -234,8 +326,17 @@ def _run(world, plan):
                 world.rec('act', ep='client', what='reconnect', via='on_keepalive_timeout', conn=k)
                 await rs.reconnect()
 
+        async def on_connection_error_hook(rs):
+            k = state['conn']
+            ev = events_by_conn.get(k)
+            if ev is not None and ev.get('via') == 'on_connection_error' and k not in requested:
+                requested.add(k)
+                world.rec('act', ep='client', what='reconnect', via='on_connection_error', conn=k)
+                await rs.reconnect()
+
         h.on_close_hook = on_close_hook
         h.on_keepalive_timeout_hook = on_timeout_hook
+        h.on_connection_error_hook = on_connection_error_hook
         return h
 
     def boot():
@@ -248,8 +349,9 @@ def _run(world, plan):
 
         async def connect_tapped():
             r = await orig_connect()
-            world.rec('act', ep='client', what='connected', conn=state['conn'])
-            state['connected'] = state['conn']
+            if state['conn'] not in plan.get('connect_fail', ()):
+                world.rec('act', ep='client', what='connected', conn=state['conn'])
+                state['connected'] = state['conn']
             return r
 
         client.connect = connect_tapped
@@ -260,9 +362,11 @@ def _run(world, plan):
     for ev in plan.get('events', []):
         def end(ev=ev):
             k = ev['conn']
-            if k >= len(links):
-                return
+            if k >= len(links) or state['conn'] != k:
+                return  # the plan's connection k is not the live one (an earlier reconnect did not happen): nothing to end
             cause = ev['cause']
+            if cause == 'connect_failed':
+                return
             if cause == 'cut':
                 # fired by the link when the byte offset is reached; if the server never sent that much, now
                 if links[k].cut_fired is None:
@@ -287,7 +391,7 @@ def _run(world, plan):
             loop.call_at(ev['at'], lambda end=end, ev=ev: loop.call_after_hops(ev.get('hops', 0), end))
         if ev.get('reconnect_at') is not None and ev['cause'] != 'explicit':
             def req(ev=ev):
-                if ev['conn'] not in requested:
+                if ev['conn'] not in requested and state['conn'] == ev['conn']:
                     requested.add(ev['conn'])
                     world.rec('act', ep='client', what='reconnect', via='script', conn=ev['conn'])
                     loop.create_task(world.endpoints['client'].reconnect())
@@ -342,6 +446,17 @@ def oracle_c17(world):
     requests = [e for e in h if e['k'] == 'act' and e.get('what') == 'reconnect' and e['seq'] < mark]
     n_expected = 1 + len(requests)
     facts0 = dict(reconnects=len(requests), causes=','.join(e['cause'] for e in events))
+    # every reconnect() request is followed by the provider being asked for the next transport; when one is not,
+    # everything later in the plan runs on another connection than planned and is not judged
+    for i, r in enumerate(requests):
+        k = r.get('conn')
+        nxt = requests[i + 1]['seq'] if i + 1 < len(requests) else mark
+        if not any(r['seq'] < a['seq'] < nxt for a in asked):
+            ev = next((e for e in events if e['conn'] == k), {})
+            V('reconnect_request_lost', 'reconnect() requested (%s, connection %d ended by %s) but the provider was never asked for '
+              'another transport' % (r.get('via'), k, ev.get('cause')), r['seq'], via=r.get('via'), cause=ev.get('cause'),
+              first_connect=(k == 0))
+            return out
     if len(asked) != n_expected:
         V('provider_calls', 'transport provider asked %d times for %d reconnect request(s)' % (len(asked), len(requests)),
           None, **facts0)
@@ -354,7 +469,7 @@ def oracle_c17(world):
             continue
         # (1) old transport closed
         closed = [e for e in h if e['k'] == 'tr' and e.get('ep') == 'client#%d' % k and e.get('what') == 'close' and e['seq'] < mark]
-        if not closed:
+        if not closed and cause != 'connect_failed':
             V('old_transport_not_closed', 'transport of connection %d was not closed on reconnect (%s)' % (k, cause), req['seq'], **facts)
         # (2) pending requests of the old connection failed
         for ia in plan['interactions']:
@@ -378,6 +493,8 @@ def oracle_c17(world):
                       % (ia['kind'], ia['id'], k, cause), None, kind=ia['kind'], **facts)
         # (3) fresh SETUP first on the new link
         new = k + 1
+        if new in plan.get('connect_fail', ()):
+            continue  # the next dial fails: nothing can be expected of that connection
         wire = [e for e in h if e['k'] == 'wire' and e['dir'] == 'c2s#%d' % new and e['seq'] < mark]
         if not wire:
             V('nothing_on_new_connection', 'nothing was ever sent on the connection opened after reconnect (%s)' % cause,
